@@ -678,6 +678,16 @@ class Interp:
                         st.mem[root] = val
                         return ('ref', root, ())
                 arr = ('agg', ('array',), tuple(C(8, x) for x in b))
+                mt = re.match(r'^&*\s*\[(\w+)(?:;\s*\d+)?\]$', tyname)
+                if mt and int_type(mt.group(1)) and int_type(mt.group(1))[0] > 8:
+                    # constant array of wider integers: group the allocation bytes (little endian)
+                    ew = int_type(mt.group(1))[0]
+                    nb = ew // 8
+                    arr = ('agg', ('array',), tuple(C(ew, int.from_bytes(bytes(b[i:i + nb]), 'little'))
+                                                    for i in range(0, len(b) - nb + 1, nb)))
+                    b = list(arr[2])
+                if not isref and tyname.startswith('['):
+                    return arr          # an array constant used by value
                 st.n['obj'] += 1
                 root = ('O', 'constalloc#%d' % st.n['obj'])
                 st.mem[root] = arr
@@ -1161,6 +1171,32 @@ class Interp:
         if model is not None:
             yield from model(self, st, fr, t, args, site, dest_ty)
             return
+        if callee.endswith('::ne') and 'PartialEq' in callee:
+            # the provided method PartialEq::ne is !eq: use the crate's (derived) eq of the same type
+            cands = [callee[:-4] + '::eq']
+            for a in args:
+                ty = None
+                if a is not None and a[0] == 'ref':
+                    v = self.read(st, a[1], a[2]) if True else None
+                    if v is not None and v[0] == 'agg' and v[1][0] == 'adt':
+                        ty = v[1][1]
+                if ty:
+                    cands.append('<%s as std::cmp::PartialEq>::eq' % ty)
+            for gen in (t.get('generics') or []):
+                cands.append('<%s as std::cmp::PartialEq>::eq' % gen)
+            for lt in (fr.fn['locals'][a_['place']['local']]['ty'] for a_ in t['args'] if a_['k'] in ('copy', 'move')):
+                base = lt.lstrip('&').replace('mut ', '').strip()
+                cands.append('<%s as std::cmp::PartialEq>::eq' % base)
+            eqf = next((c for c in cands if c in self.fns), None)
+            if eqf is not None:
+                for r in self.call_fn(eqf, args, st, fr.depth + 1, site):
+                    if r.status == 'ok' and r.ret is not None and is_int(r.ret):
+                        yield (O(1, 'eq', r.ret, C(r.ret[1], 0)), r.state, 'ok', None)
+                    elif r.status == 'ok':
+                        yield (r.state.fresh(1, 'ne'), r.state, 'ok', None)
+                    else:
+                        yield (None, r.state, r.status, (r.where, r.detail))
+                return
         # unknown external callee: havoc what it may write, return a fresh symbol
         st.events.append(('extcall', callee, tuple(args), site, snapshot_args(self, st, args)))
         for a in args:
